@@ -20,10 +20,14 @@ What is modelled is the *sizes* rpgp's own code asks its containers for, as a co
                       `signature/subpacket.rs SubpacketLength::try_from_reader`,
                       `signature/de.rs subpackets` (`Vec::with_capacity(len.min(32))`, one push per
                       subpacket, every iteration consumes at least two octets)
-* `sigCopy`, `sigDepth`
-                      `signature/de.rs  {v4_parser, v6_parser, subpackets, embedded_sig}`: the bytes
-                      `embedded_sig` copies with `i.rest()` at every nesting level, and the nesting depth
-                      (= recursion depth of `Signature::try_from_reader`)
+* `sigCost`, `areaCost`
+                      `signature/de.rs  {try_from_reader_nested, v4_parser, v6_parser, subpackets,
+                      embedded_sig}` with `MAX_EMBEDDED_SIGNATURE_DEPTH`: the bytes `embedded_sig`
+                      copies with `i.rest()`, whether the nesting cap refused the input, and the
+                      deepest `depth` any nested signature parser ran with
+* `sigCopyUncapped`, `sigDepthUncapped`
+                      the same code WITHOUT the cap (the tree before the D19 repair), kept as a
+                      regression model only
 * `nestSig`           the witness family: a signature whose unhashed area holds one embedded signature …
 * `readFromBuf`       `armor/reader.rs  read_from_buf` (back buffer, `limit`, re-parse per refill) over
                       an abstract parser verdict
@@ -193,11 +197,88 @@ def subpacketsShape (declared : Nat) (area : Bytes) : Option (Nat × Nat) :=
 
 def isEmbedded (t : UInt8) : Bool := t.toNat % 2 ^ Gen.subTypeCriticalShift == Gen.subTypeEmbeddedSignature
 
+/-- what the embedded-signature machinery costs while `Signature::try_from_reader_nested(.., depth)`
+parses a packet body: bytes copied by `embedded_sig` (`i.rest()`) at all levels, whether the parse
+survived the nesting cap (`ok = false`: `embedded_sig` refused a subpacket at `depth = cap`, the whole
+parse is aborted and nothing further is copied), and the largest `depth` argument any (transitively)
+invoked signature parser ran with -/
+structure SigCost where
+  copy : Nat
+  ok : Bool
+  reach : Nat
+deriving Repr, DecidableEq
+
 mutual
-/-- bytes copied by `embedded_sig` (`i.rest()`) at all nesting levels while
-`Signature::try_from_reader` parses `b` (the packet body), assuming no earlier error stops the parse
-(an upper bound in general, exact on accepted input) -/
-def sigCopy : Nat → Bytes → Nat
+/-- `Signature::try_from_reader_nested(header, b, depth)` with `MAX_EMBEDDED_SIGNATURE_DEPTH = cap`:
+`v4_parser` / `v6_parser` run `subpackets` on the hashed, then on the unhashed area.  Other parse
+errors are not modelled (they only stop the parse earlier: the cost is an upper bound in general and
+exact on input that is otherwise well formed). -/
+def sigCost (cap : Nat) : Nat → Nat → Bytes → SigCost
+  | 0, depth, _ => ⟨0, true, depth⟩
+  | fuel + 1, depth, b =>
+    match b with
+    | [] => ⟨0, true, depth⟩
+    | v :: r =>
+      if v.toNat = 4 then
+        let r := r.drop 3
+        let hl := beNat (r.take 2)
+        let r := r.drop 2
+        let ul := beNat ((r.drop hl).take 2)
+        let c1 := areaCost cap fuel depth (r.take hl)
+        if c1.ok then
+          let c2 := areaCost cap fuel depth (((r.drop hl).drop 2).take ul)
+          ⟨c1.copy + c2.copy, c2.ok, max c1.reach c2.reach⟩
+        else c1
+      else if v.toNat = 6 then
+        let r := r.drop 3
+        let hl := beNat (r.take 4)
+        let r := r.drop 4
+        let ul := beNat ((r.drop hl).take 4)
+        let c1 := areaCost cap fuel depth (r.take hl)
+        if c1.ok then
+          let c2 := areaCost cap fuel depth (((r.drop hl).drop 4).take ul)
+          ⟨c1.copy + c2.copy, c2.ok, max c1.reach c2.reach⟩
+        else c1
+      else ⟨0, true, depth⟩
+/-- `subpackets(.., depth)` over one area: an Embedded Signature subpacket is refused by
+`embedded_sig` when `depth ≥ cap` (before anything is copied); otherwise its body is copied and
+parsed at `depth + 1` -/
+def areaCost (cap : Nat) : Nat → Nat → Bytes → SigCost
+  | 0, depth, _ => ⟨0, true, depth⟩
+  | fuel + 1, depth, a =>
+    match subLen a with
+    | none => ⟨0, true, depth⟩
+    | some (l, r) =>
+      if l = 0 then ⟨0, true, depth⟩
+      else
+        match r with
+        | [] => ⟨0, true, depth⟩
+        | t :: r' =>
+          let body := r'.take (l - 1)
+          if isEmbedded t then
+            if cap ≤ depth then ⟨0, false, depth⟩
+            else
+              let c1 := sigCost cap fuel (depth + 1) body
+              if c1.ok then
+                let c2 := areaCost cap fuel depth (r'.drop (l - 1))
+                ⟨body.length + c1.copy + c2.copy, c2.ok, max c1.reach c2.reach⟩
+              else ⟨body.length + c1.copy, false, c1.reach⟩
+          else areaCost cap fuel depth (r'.drop (l - 1))
+end
+
+/-- the public entry `Signature::try_from_reader` (depth 0, the extracted cap) -/
+def sigCostOf (b : Bytes) : SigCost := sigCost Gen.maxEmbeddedSignatureDepth (b.length + 1) 0 b
+
+/-! ### the code before the nesting cap was introduced (kept as a regression model: D19)
+
+`sigCopyUncapped` / `sigDepthUncapped` are `embedded_sig` WITHOUT `MAX_EMBEDDED_SIGNATURE_DEPTH`:
+every level copies and recurses.  Nothing in the driver uses them; `RpgpProps/C19.lean` keeps the
+proof that they are quadratic / unbounded on the witness family, i.e. that the cap is what makes
+the property hold. -/
+
+mutual
+/-- bytes copied by an `embedded_sig` without nesting cap, at all nesting levels -/
+def sigCopyUncapped : Nat → Bytes → Nat
   | 0, _ => 0
   | fuel + 1, b =>
     match b with
@@ -208,16 +289,16 @@ def sigCopy : Nat → Bytes → Nat
         let hl := beNat (r.take 2)
         let r := r.drop 2
         let ul := beNat ((r.drop hl).take 2)
-        areaCopy fuel (r.take hl) + areaCopy fuel (((r.drop hl).drop 2).take ul)
+        areaCopyUncapped fuel (r.take hl) + areaCopyUncapped fuel (((r.drop hl).drop 2).take ul)
       else if v.toNat = 6 then
         let r := r.drop 3
         let hl := beNat (r.take 4)
         let r := r.drop 4
         let ul := beNat ((r.drop hl).take 4)
-        areaCopy fuel (r.take hl) + areaCopy fuel (((r.drop hl).drop 4).take ul)
+        areaCopyUncapped fuel (r.take hl) + areaCopyUncapped fuel (((r.drop hl).drop 4).take ul)
       else 0
 /-- the same for one subpacket area -/
-def areaCopy : Nat → Bytes → Nat
+def areaCopyUncapped : Nat → Bytes → Nat
   | 0, _ => 0
   | fuel + 1, a =>
     match subLen a with
@@ -229,12 +310,12 @@ def areaCopy : Nat → Bytes → Nat
         | [] => 0
         | t :: r' =>
           let body := r'.take (l - 1)
-          (if isEmbedded t then body.length + sigCopy fuel body else 0) + areaCopy fuel (r'.drop (l - 1))
+          (if isEmbedded t then body.length + sigCopyUncapped fuel body else 0) + areaCopyUncapped fuel (r'.drop (l - 1))
 end
 
 mutual
 /-- nesting depth of embedded signatures = recursion depth of `Signature::try_from_reader` -/
-def sigDepth : Nat → Bytes → Nat
+def sigDepthUncapped : Nat → Bytes → Nat
   | 0, _ => 0
   | fuel + 1, b =>
     match b with
@@ -245,15 +326,15 @@ def sigDepth : Nat → Bytes → Nat
         let hl := beNat (r.take 2)
         let r := r.drop 2
         let ul := beNat ((r.drop hl).take 2)
-        max (areaDepth fuel (r.take hl)) (areaDepth fuel (((r.drop hl).drop 2).take ul))
+        max (areaDepthUncapped fuel (r.take hl)) (areaDepthUncapped fuel (((r.drop hl).drop 2).take ul))
       else if v.toNat = 6 then
         let r := r.drop 3
         let hl := beNat (r.take 4)
         let r := r.drop 4
         let ul := beNat ((r.drop hl).take 4)
-        max (areaDepth fuel (r.take hl)) (areaDepth fuel (((r.drop hl).drop 4).take ul))
+        max (areaDepthUncapped fuel (r.take hl)) (areaDepthUncapped fuel (((r.drop hl).drop 4).take ul))
       else 0
-def areaDepth : Nat → Bytes → Nat
+def areaDepthUncapped : Nat → Bytes → Nat
   | 0, _ => 0
   | fuel + 1, a =>
     match subLen a with
@@ -265,12 +346,12 @@ def areaDepth : Nat → Bytes → Nat
         | [] => 0
         | t :: r' =>
           let body := r'.take (l - 1)
-          max (if isEmbedded t then 1 + sigDepth fuel body else 0) (areaDepth fuel (r'.drop (l - 1)))
+          max (if isEmbedded t then 1 + sigDepthUncapped fuel body else 0) (areaDepthUncapped fuel (r'.drop (l - 1)))
 end
 
 /-- total copy volume / depth of a signature packet body -/
-def sigCopyOf (b : Bytes) : Nat := sigCopy (b.length + 1) b
-def sigDepthOf (b : Bytes) : Nat := sigDepth (b.length + 1) b
+def sigCopyUncappedOf (b : Bytes) : Nat := sigCopyUncapped (b.length + 1) b
+def sigDepthUncappedOf (b : Bytes) : Nat := sigDepthUncapped (b.length + 1) b
 
 /-! ### the witness family -/
 
@@ -297,10 +378,17 @@ def nestSig (ver : Nat) : Nat → Bytes
 /-- length of `nestSig ver d` (closed form, proved in `RpgpProofs/Resource.lean`) -/
 def nestLen (ver d : Nat) : Nat := if ver = 4 then 13 + 19 * d else 34 + 40 * d
 
-/-- bytes copied while parsing `nestSig ver d` (closed form of `sigCopyOf (nestSig ver d)`, proved in
+/-- bytes copied while parsing `nestSig ver d` (closed form of `sigCopyUncappedOf (nestSig ver d)`, proved in
 `RpgpProofs/Resource.lean`): level `i` copies the whole of `nestSig ver i` -/
 def nestCopyClosed (ver d : Nat) : Nat :=
   if ver = 4 then 13 * d + 19 * (d * (d - 1) / 2) else 34 * d + 40 * (d * (d - 1) / 2)
+
+/-- bytes copied while `sigCost cap` parses `nestSig ver d` when `k` more levels may still be
+entered: the `k` outermost embedded signatures `nestSig ver (d-1)`, …, `nestSig ver (d-k)` -/
+def nestCopyCapped (ver : Nat) : Nat → Nat → Nat
+  | 0, _ => 0
+  | _ + 1, 0 => 0
+  | d + 1, k + 1 => nestLen ver d + nestCopyCapped ver d k
 
 /-! ## 7. `read_from_buf` (armor header / footer accumulation) -/
 
